@@ -384,7 +384,10 @@ impl Exec {
         let vbits = real!(self.r.value()).to_bits();
         if self.pressing {
             let stride = (self.cap / 16).max(1);
-            if self.cap <= 64 || l == need || l % stride == 0 {
+            // large buffers: a sample of the press positions, plus the ones where an index is most likely to slip
+            // (the first samples of the press, and the samples around the first wrap of the ring buffer)
+            let wrap = need + self.cap;
+            if self.cap <= 64 || l <= need + 1 || l % stride == 0 || (l + 1 >= wrap && l <= wrap + 1) {
                 self.value_oracle(ctx);
             }
             if l == need + self.cap {
